@@ -2450,9 +2450,10 @@ class TagCollection(list):
             return ret
 
         # Check for multiple class names
-        classNames = className.split(' ')
+        classNames = [ x for x in className.split(' ') if x ]
         if len(classNames) <= 1:
             # Simple - 1 class name
+            className = className.strip()
             _cmpFunc = lambda tag : tag.hasClass(className)
         else:
             # Multiple class names
